@@ -107,3 +107,16 @@ func (r *rlocker) Lock()   { (*RWMutex)(r).RLock() }
 func (r *rlocker) Unlock() { (*RWMutex)(r).RUnlock() }
 
 func (m *RWMutex) RLocker() Locker { return (*rlocker)(m) }
+
+// Spawn, when set by the harness, receives the goroutines that rewritten `go f(args)` statements
+// would start (ovgen goRewrite): they become explicit transitions the explorer delivers.
+var Spawn func(f func())
+
+// Go starts f the way the original `go` statement did unless the harness took goroutines over.
+func Go(f func()) {
+	if s := Spawn; s != nil {
+		s(f)
+		return
+	}
+	go f()
+}
